@@ -220,6 +220,7 @@ def describe(lab):
 
 def compare_runs(cfg_a, obs_a, cfg_b, obs_b, chains=None):
     """bit-for-bit comparison of everything two runs expose (restricted to the given chains)"""
+    obs_a, obs_b = json.loads(json.dumps(obs_a)), json.loads(json.dumps(obs_b))
     if obs_a["error"] or obs_b["error"]:
         if obs_a["error"] != obs_b["error"]:
             return f"one run raised {obs_a['error']}, the other {obs_b['error']}"
@@ -244,7 +245,10 @@ def pair_variants(cfg, i, rnd):
     """metamorphic partners of a configuration: (kind, partner cfg, chains to compare)"""
     from . import c10_kit as kit
     out = []
-    kind = ["rerun", "seed_equiv", "perturb", "replicate_equiv"][i % 4]
+    kinds = ["rerun", "seed_equiv", "perturb", "replicate_equiv"]
+    ok = {"rerun": True, "seed_equiv": cfg["seed_kind"] == "int", "perturb": cfg["nch"] >= 2,
+          "replicate_equiv": cfg["init_mode"] == "replicate" and cfg["via"] == "builder"}
+    kind = next(kinds[(i + d) % 4] for d in range(4) if ok[kinds[(i + d) % 4]]) if i % 4 else "rerun"
     if kind == "rerun":
         out.append(("rerun", copy.deepcopy(cfg), None))
     elif kind == "seed_equiv" and cfg["seed_kind"] == "int":
@@ -273,7 +277,12 @@ PAIR_TEXT = {
     "seed_equiv": "the run with the integer seed and the run with jax.random.PRNGKey(seed) differ: ",
     "perturb": "perturbing the initial value of chain %s changed another chain: ",
     "replicate_equiv": "one replicated state and the same state supplied per chain give different runs: ",
+    "process_rerun": "the same configuration run in a fresh interpreter process (PYTHONHASHSEED=%s) differs: ",
 }
+
+HASHSEEDS_QUICK = ["1", "2"]
+HASHSEEDS_THOROUGH = ["1", "2", "3", "4"]
+PROCESS_CFG_INDEX = 2          # corpus entry run again in fresh processes: three jitter functions
 
 
 def make_case(ctx, cid, name, cfg, pair=None):
@@ -320,24 +329,44 @@ def generate(ctx):
     n_rand = 4 if ctx.quick else 60
     n_pairs_rand = 1 if ctx.quick else 30
     todo = [(nm, cfg) for nm, cfg in corpus()] + [("random%03d" % i, rand_cfg(rnd, i)) for i in range(n_rand)]
+    from . import c10_kit as kit0
+    pname, pcfg0 = corpus()[PROCESS_CFG_INDEX]
+    procs = [(hs, kit0.spawn_run(pcfg0, hs)) for hs in (HASHSEEDS_QUICK if ctx.quick else HASHSEEDS_THOROUGH)]
+    process_base = None
     pair_for = {0: 0, 2: 3, 9: 2, 3: 1}        # corpus index -> pair kind index (rerun, replicate_equiv, perturb, seed_equiv)
     for idx, (nm, cfg) in enumerate(todo):
         cid = len(cases)
         case = make_case(ctx, cid, nm, cfg)
         cases.append(case)
+        if idx == PROCESS_CFG_INDEX:
+            process_base = case
         kinds = []
         if idx in pair_for:
             kinds = [pair_for[idx]]
             if idx == 0:
                 kinds = [0, 1, 2]      # the F2 configuration: rerun, seed equivalence and perturbation
         elif idx >= len(corpus()) and (idx - len(corpus())) < n_pairs_rand * 2 and idx % 2 == 0:
-            kinds = [rnd.randrange(4)]
+            kinds = [1 + (idx // 2) % 3 if (idx // 2) % 5 else 0]      # rotate the partner kinds, every 5th a rerun
         if case["error"] is not None:
             kinds = []
         for k in kinds:
             for (kind, pcfg, chains) in pair_variants(cfg, k, rnd):
                 pid = len(cases)
                 cases.append(make_case(ctx, pid, nm + "/" + kind, pcfg, (kind, cid, chains, case)))
+    # the runs in fresh interpreter processes
+    for hs, p in procs:
+        obs = kit0.collect_run(p)
+        cid = len(cases)
+        SIDE[cid] = obs
+        diff = compare_runs(pcfg0, SIDE[process_base["id"]], pcfg0, obs, None)
+        case = {"id": cid, "name": f"{pname}/process_rerun", "cfg": pcfg0, "error": obs["error"],
+                "message": obs.get("message"), "expect_raise": None, "oracle": judge(pcfg0, obs),
+                "pair": {"kind": "process_rerun", "with": pcfg0, "chains": None, "perturbed_chain": hs,
+                         "hashseed": hs, "diff": diff}}
+        if diff and not case["oracle"]:
+            case["oracle"] = PAIR_TEXT["process_rerun"] % hs + diff
+        ctx.hist("pair:process_rerun")
+        cases.append(case)
     ncalls = 0
     distinct = set()
     for c in cases:
@@ -362,7 +391,8 @@ def generate(ctx):
         "per-chain states for exactly num_chains chains",
     ]
     ctx.tested_not_proved += [
-        "bit-identical results of two identical runs (XLA runtime determinism): tested by rerunning configurations",
+        "bit-identical results of two identical runs (XLA runtime determinism): tested by rerunning configurations in the "
+        "same process and in fresh interpreter processes with other PYTHONHASHSEED values",
         "int seed = PRNGKey(seed) end-to-end, replicated state = the same state per chain, other chains unchanged when "
         "one chain's initial value is perturbed: the theorems hold of the model; on the code they are tested by paired runs",
         "concrete distinctness of threefry keys derived along distinct paths (checked on all observed keys of every run)",
@@ -641,6 +671,15 @@ def replay(rp) -> int:
           f"{obs['chains']} chains, {obs['n_stored']} stored samples; first stored sample of chain 0: {obs['stored'][0][0]}")
     res = judge(cfg, obs)
     pair = case.get("pair")
+    if not res and pair and pair["kind"] == "process_rerun":
+        obs0 = kit.run_config(cfg)
+        for hs in sorted({pair.get("hashseed", "1"), "1", "2", "3"}):
+            obs1 = kit.collect_run(kit.spawn_run(cfg, hs))
+            d = compare_runs(cfg, obs0, cfg, obs1, None)
+            if d:
+                res = PAIR_TEXT["process_rerun"] % hs + d
+                break
+        pair = None
     if not res and pair:
         obs0 = kit.run_config(pair["with"])
         d = compare_runs(pair["with"], obs0, cfg, obs, pair.get("chains"))
